@@ -104,6 +104,9 @@ func (lc *LocalClient) AddVersion(v Version, deps []RequirementVersion) {
 	SortVersions(versions)
 	lc.PackageVersions[v.PackageKey] = versions
 
+	// Keep a private copy: the caller's slice must neither be reordered nor
+	// stay shared with the client.
+	deps = slices.Clone(deps)
 	SortDependencies(deps)
 	lc.imports[v.VersionKey] = deps
 
